@@ -1,5 +1,5 @@
 (* ShowX.v -- rendering of stores, outputs, bars, tokens for the correspondence check. *)
-From Model Require Import Base Seq Pairing Bars Store Show.
+From Model Require Import Base Seq Pairing Bars Store ScaleDown Show.
 Open Scope string_scope.
 
 Definition show_seq (s : seq) : string :=
@@ -147,7 +147,8 @@ Definition make_cfg_full (tslo tshi ppqn ntracks plo phi : Z) (steps values : op
 
 (* ---- harness-level compound operations: one public call that is a fixed sequence of modelled operations
    (e.g. Sequence.scale(k) with its default quantise_afterwards=True); stops at the first error like Python *)
-Inductive hop : Set := HOp (o : op) | HSeq (os : list op).
+Inductive hop : Set := HOp (o : op) | HSeq (os : list op)
+| HScaleDown (i : nat) (k : Z) (meta : option nat) (then_ : list op).   (* scale(1/k, meta) and, if it succeeds, then_ *)
 Fixpoint hseq (st : store) (os : list op) (last : out) : store * out :=
   match os with
   | [] => (st, last)
@@ -155,7 +156,13 @@ Fixpoint hseq (st : store) (os : list op) (last : out) : store * out :=
                 match x with OErr _ => (st1, x) | _ => hseq st1 os' x end
   end.
 Definition hstep (st : store) (h : hop) : store * out :=
-  match h with HOp o => step st o | HSeq os => hseq st os ONone end.
+  match h with
+  | HOp o => step st o
+  | HSeq os => hseq st os ONone
+  | HScaleDown i k meta then_ =>
+      let '(st1, x) := store_scale_down st i k meta in
+      match x with OErr _ => (st1, x) | _ => hseq st1 then_ x end
+  end.
 Fixpoint run_trace_h (st : store) (hs : list hop) : list string :=
   match hs with
   | [] => []
